@@ -49,6 +49,9 @@ type mpCase struct {
 	Tests [][]int  `json:"tests"`
 }
 
+// third: the statement kind elseif carries the index of its third value in the type field (a one-element tuple)
+func (t mpType) third() int { return int(t[0].(float64)) }
+
 func (t mpType) kind() string { return t[0].(string) }
 func (t mpType) width() int   { return int(t[1].(float64)) }
 func (t mpType) String() string {
@@ -154,6 +157,12 @@ func renderMpcl(mc *mpCase) string {
 			helpers[fn] = fmt.Sprintf("func %s(x, y %s) (%s, %s) {\n\treturn x + y, x - y\n}\n", fn, t.s, t.s, t.s)
 			n := def(t)
 			fmt.Fprintf(&body, "\tvar %s %s\n\tif %s {\n\t\t%ss, %sd := %s(%s, %s)\n\t\t%s = %sd + %ss - %ss\n\t} else {\n\t\t%s = %s\n\t}\n", n, t.s, c1, n, n, fn, x, y, n, n, n, n, n, x)
+		case "elseif":
+			x, y, c1, c2 := name(s.X), name(s.Y), name(s.Z), name(s.C)
+			z := name(s.T.third())
+			t := types[s.X-1]
+			n := def(t)
+			fmt.Fprintf(&body, "\t%s := %s\n\tif %s {\n\t\t%s = %s\n\t} else if %s {\n\t\t%s = %s\n\t}\n", n, z, c1, n, x, c2, n, y)
 		case "ifret":
 			x, c := name(s.X), name(s.Z)
 			n := def(rType{s: "bool"})
